@@ -42,6 +42,10 @@ def run_check(prop, tier, repo, seed="1", scale=None):
 
 
 def apply_mutant(root, m):
+    if "edits" in m:          # a mutant made of several cooperating single replacements
+        for e in m["edits"]:
+            apply_mutant(root, dict(e, id=m["id"]))
+        return
     p = root / m["file"]
     s = p.read_text()
     n = s.count(m["old"])
